@@ -287,8 +287,15 @@ func (ld *Loaded) replacements(fn *ssa.Function) []*replacement {
 
 // replacement picks the replacement that is active for the running harness (ungrouped ones always are).
 func (ld *Loaded) replacement(fn *ssa.Function, groups map[string]bool) *replacement {
-	for _, r := range ld.replacements(fn) {
-		if r.group == "" || groups[r.group] {
+	rs := ld.replacements(fn)
+	// a model scoped to a group the harness names wins over an unscoped one
+	for _, r := range rs {
+		if r.group != "" && groups[r.group] {
+			return r
+		}
+	}
+	for _, r := range rs {
+		if r.group == "" {
 			return r
 		}
 	}
